@@ -353,8 +353,12 @@ func VerifH05c() {
 	// steps carry concrete values (lhs 10+k > rhs 1+k: kept) so that only the focus
 	// step forks on keep/drop
 	focus := sym.Choice("focus", 3)
-	ls := stub.SymStreamFocusAt("l", len(cfg.lhs), shape, t0, dt, focus, op == parser.GTR, 10)
-	rs := stub.SymStreamFocusAt("r", len(cfg.rhs), shape, t0, dt, focus, op == parser.GTR, 1)
+	lbase, rbase := 10.0, 1.0
+	if op == parser.GTR && sym.Choice("offFocusDropped", 2) == 1 {
+		lbase, rbase = 1.0, 10.0 // off-focus pairs are filtered out instead of kept
+	}
+	ls := stub.SymStreamFocusAt("l", len(cfg.lhs), shape, t0, dt, focus, op == parser.GTR, lbase)
+	rs := stub.SymStreamFocusAt("r", len(cfg.rhs), shape, t0, dt, focus, op == parser.GTR, rbase)
 	lop := stub.NewOp(cfg.lhs, ls, 2)
 	rop := stub.NewOp(cfg.rhs, rs, 2)
 	m := cfg.matching
